@@ -29,6 +29,7 @@ CLAIMED = {
              "computes, operation by operation and over whole histories, exactly the state and roots of the tree-carrying executor "
              "(Free.op_is_executor_op - no run-level hypothesis -, Free.run_is_executor_run) and its get returns the map model's "
              "value (Free.run_get). "
+             "WHOLE HISTORIES WITH squash_changes BLOCKS (Props/HistoryBlocks.lean): after any history of direct calls and blocks - each left normally or by an exception - pruning on or off, the trie is the tree of the FLATTENED history (committed blocks contribute their calls, aborted ones nothing), the database is complete for it and - pruning - holds exactly the live nodes with true counts (Free.history_blocks_world, history_blocks_pruning_exact), get of the tree-free world returns the flattened history's map model value and never raises (history_blocks_get), its root is the Yellow Paper root of those contents and depends on nothing else (history_blocks_root, history_blocks_root_depends_only_on_contents); applied to a concrete history with a committed and an aborted block (NonVacuity9). "
              "Tie: get() after every operation of generated histories (4 configurations) equals the model's; the raw-level run is "
              "driven alongside fresh non-pruning tries (root after every op, final database, lookups).",
         technique="Lean 4 proof (induction over histories on a tree model) + correspondence check of model vs code",
@@ -43,7 +44,7 @@ CLAIMED = {
              "c(J,i)/n(J,i) construction applied to its contents and the root hash is TRIE(contents), for every H "
              "(root_is_yellow_paper_trie, node_is_yellow_paper_c, ref_is_yellow_paper_n; HP = Yellow Paper HP is C16); what remains "
              "unproved is only that the model's rlp/Keccak-256 are the real ones (external vectors). The raw-level transcription of "
-             "set/delete run over any history returns TRIE(final contents) (Raw.history_root_is_yellow_paper). Tie: root after every "
+             "set/delete run over any history returns TRIE(final contents) (Raw.history_root_is_yellow_paper). WHOLE HISTORIES WITH squash_changes BLOCKS (Props/HistoryBlocks.lean): after any history of direct calls and blocks - each left normally or by an exception - pruning on or off, the trie is the tree of the FLATTENED history (committed blocks contribute their calls, aborted ones nothing), the database is complete for it and - pruning - holds exactly the live nodes with true counts (Free.history_blocks_world, history_blocks_pruning_exact), get of the tree-free world returns the flattened history's map model value and never raises (history_blocks_get), its root is the Yellow Paper root of those contents and depends on nothing else (history_blocks_root, history_blocks_root_depends_only_on_contents); applied to a concrete history with a committed and an aborted block (NonVacuity9). Tie: root after every "
              "operation, also against the raw-level run (own root and database) for fresh non-pruning tries.",
         technique="Lean 4 proof (canonical-form uniqueness) + correspondence check with external test vectors",
         design_ref="6/C02"),
@@ -70,6 +71,7 @@ CLAIMED = {
              "exception), pruning on or off: every call returns the same outcome in both worlds and they end in the same database, root "
              "and counts (Free.history_lockstep); two specification subtleties were machine-found there (the view equals what ScratchDB "
              "reads only for caches with unique keys - view_is_what_is_read, cache_keys_unique_* - and the counts slot). "
+             "WHOLE HISTORIES WITH squash_changes BLOCKS (Props/HistoryBlocks.lean): after any history of direct calls and blocks - each left normally or by an exception - pruning on or off, the trie is the tree of the FLATTENED history (committed blocks contribute their calls, aborted ones nothing), the database is complete for it and - pruning - holds exactly the live nodes with true counts (Free.history_blocks_world, history_blocks_pruning_exact), get of the tree-free world returns the flattened history's map model value and never raises (history_blocks_get), its root is the Yellow Paper root of those contents and depends on nothing else (history_blocks_root, history_blocks_root_depends_only_on_contents); applied to a concrete history with a committed and an aborted block (NonVacuity9). "
              "Tie: exact db, root and counts after every step, every exit kind and position, for the tree-carrying AND the tree-free world. Also stated directly on the tree-free transcription FWorld with NO run-level hypothesis (Free.batch_op_leaves_outer, Free.abort_restores: a block left by an exception restores the world exactly whatever was done inside; Free.commit_failure_keeps_outer; Free.commit_adopts_root).",
         technique="Lean 4 proof (invariants of the world executor) + correspondence check with fault injection",
         design_ref="6/C05"),
@@ -90,7 +92,7 @@ CLAIMED = {
              "and history (Raw.prune_op_keeps_complete, pruned_db_complete), hence the raw-level reader (get over rlp-decoded nodes "
              "fetched from the pruned database) returns the map model's value for every key (Raw.pruned_db_get). The tree-free executor "
              "(root hash + database only) reaches exactly these states: its counts are the true reference counts, its database holds "
-             "exactly the live nodes with their encodings (Free.run_pruning_exact, Free.op_is_executor_op). Tie: exact key set, "
+             "exactly the live nodes with their encodings (Free.run_pruning_exact, Free.op_is_executor_op). WHOLE HISTORIES WITH squash_changes BLOCKS (Props/HistoryBlocks.lean): after any history of direct calls and blocks - each left normally or by an exception - pruning on or off, the trie is the tree of the FLATTENED history (committed blocks contribute their calls, aborted ones nothing), the database is complete for it and - pruning - holds exactly the live nodes with true counts (Free.history_blocks_world, history_blocks_pruning_exact), get of the tree-free world returns the flattened history's map model value and never raises (history_blocks_get), its root is the Yellow Paper root of those contents and depends on nothing else (history_blocks_root, history_blocks_root_depends_only_on_contents); applied to a concrete history with a committed and an aborted block (NonVacuity9). Tie: exact key set, "
              "counts, regenerate_ref_count after every operation; the raw-level reader on the model's pruned database after every op; the "
              "tree-free executor alongside every direct operation (outcome, root, full database, counts).",
         technique="Lean 4 proof (structural induction, balance invariant) + correspondence check",
@@ -152,7 +154,7 @@ CLAIMED = {
              "NoClobber predicate), and completeness of any root survives all later growth (complete_survives); at history level: after ANY history the final "
              "database is complete for every earlier version and the raw-level reader started at the root of version i returns "
              "the contents of that moment for every key (history_complete_for_all_versions, history_old_roots_readable), no binding "
-             "of any intermediate database was removed or altered (history_preserves_every_binding). Tie: exact db after every "
+             "of any intermediate database was removed or altered (history_preserves_every_binding). SEVERAL TRIES OVER ONE DATABASE (Props/C04Shared.lean): for every interleaved history of new non-pruning tries, tries opened at earlier roots (HexaryTrie(db, root) / at_root) and set/delete calls addressed to any of them, each call returns normally, changes only its own trie (to the tree-level result), preserves every binding (C04.shared_step), and at the end the database is complete for every trie and every root any trie ever had: the raw-level reader returns each trie's own contents and each old root's contents (shared_history, shared_history_reads, shared_root_recorded; concrete three-trie history in NonVacuity10). Tie: exact db after every "
              "step, every old root re-read through a fresh trie and at_root, reads via the Lean Layer-D reader on the model's own db.",
         technique="Lean 4 proof (invariants of the world executor, any fault position) + correspondence check with fault injection",
         design_ref="6/C04"),
@@ -217,7 +219,7 @@ CLAIMED = {
              "tree-level history and a database storing that whole tree, and BinaryTrie.get over that database returns the map "
              "model's value (Raw.bin_history, bin_history_tree, bin_history_get); a call refused with NodeOverrideError has saved nothing and the "
              "database is add-only, for every input (Raw.bin_refused_saves_nothing, bin_db_add_only, binT_agrees). That the kv/branch/leaf "
-             "byte encoding is the specified one is pinned by the independent canonical encoder of the harness and C16. Tie: outcome, "
+             "byte encoding is the specified one is pinned by the independent canonical encoder of the harness and C16. EARLIER ROOTS (Props/C12History.lean): after any history the write log only grew (bin_history_log_grows) and, the final log being functional (no hash bound to two bodies - a run-level fact), BinaryTrie(db, root_i).get over the FINAL database returns the map model's value after the first i calls, for every i and key (bin_history_old_roots_readable; NonVacuity10). Tie: outcome, "
              "root, exact database, get/exists after every call; old roots re-read through the Lean Layer-D reader; the raw-level run "
              "on its own root and database alongside every history (root per call, database, lookups).",
         technique="Lean 4 proof (case-for-case tree model, canonical-form uniqueness) + correspondence check",
